@@ -58,6 +58,8 @@ fn alphabet(property: &str) -> (Idx, Vec<Op>) {
             Op::Add(1),
             Op::Add(2),
             Op::Add(3),
+            Op::AddSparse(6), // composite tuple (opt, opt2) = (7, absent)
+            Op::AddSparse(7), // composite tuple (absent, 7): another key, another posting
             Op::AddInvalid,
             Op::Update(1, 0),
             Op::Update(1, 2),
@@ -102,8 +104,23 @@ struct Res {
 /// (so that a single remove / update leaves a still-shared posting in a clean bucket).
 fn prelude(kind: u8) -> Vec<Op> {
     match kind {
-        0 => vec![],
+        0 | 2 => vec![],
         _ => vec![Op::Add(0), Op::Add(1), Op::Flush],
+    }
+}
+
+/// Start 2 (C02 only): the empty collection with the two composite (always
+/// unique) indexes in addition, so that composite key derivation - absent vs
+/// null components, component position - is compared with the documents too.
+fn idx_for(base: Idx, start: u8) -> Idx {
+    if start == 2 {
+        Idx {
+            age_opt: true,
+            opt_opt2: true,
+            ..base
+        }
+    } else {
+        base
     }
 }
 
@@ -227,7 +244,7 @@ fn main() {
         let v: serde_json::Value = serde_json::from_slice(&std::fs::read(&file).expect("read")).expect("json");
         let hist: Vec<Op> = serde_json::from_value(v["replay"]["history"].clone()).expect("history");
         let start = v["replay"]["start"].as_u64().unwrap_or(0) as u8;
-        let r = run_history(idx, &prelude(start), &hist, true);
+        let r = run_history(idx_for(idx, start), &prelude(start), &hist, true);
         for (sig, msg) in r.problems {
             run.violation(Violation {
                 signature: format!("{property}|hist|{sig}"),
@@ -243,11 +260,11 @@ fn main() {
     let max_depth = run.tier.pick(3, 5);
     let threads = util::n_threads();
     let mut completed_depth = 0;
-    let starts: Vec<u8> = vec![0, 1];
+    let starts: Vec<u8> = if property == "C02" { vec![0, 1, 2] } else { vec![0, 1] };
     for depth in 1..=max_depth {
       for &start in &starts {
         // the preloaded start is explored one level less deep than the empty one
-        if start == 1 && depth == max_depth && max_depth > 2 {
+        if start >= 1 && depth == max_depth && max_depth > 2 {
             continue;
         }
         let pre = prelude(start);
@@ -284,7 +301,7 @@ fn main() {
                     x /= ops_ref.len() as u64;
                 }
                 hist.reverse();
-                let r = run_history(idx, &pre, &hist, true);
+                let r = run_history(idx_for(idx, start), &pre, &hist, true);
                 agg.0 += 1;
                 agg.1 += r.steps;
                 agg.2 += r.compares;
@@ -341,7 +358,7 @@ fn main() {
     run.set("completed_depth", json!(completed_depth));
     run.set("alphabet", json!(ops.iter().map(|o| format!("{o:?}")).collect::<Vec<_>>()));
     run.rule(&format!(
-        "every history of length 1..={completed_depth} from the empty collection, and one level less from a start state with two flushed documents sharing a non-unique key, over the {}-operation alphabet (accepted and rejected writes, flush, compaction, clean reopen, index create+backfill/removal through the open callback) executed on a fresh database; states = distinct final (documents, index set) model states; a history is non-trivial when it ran to the end",
+        "every history of length 1..={completed_depth} from the empty collection, and one level less from a start state with two flushed documents sharing a non-unique key and (C02) from the empty collection with the two composite unique indexes (age,opt) and (opt,opt2) added, over the {}-operation alphabet (accepted and rejected writes, flush, compaction, clean reopen, index create+backfill/removal through the open callback) executed on a fresh database; states = distinct final (documents, index set) model states; a history is non-trivial when it ran to the end",
         ops.len()
     ));
     run.assume("sequential histories on one handle; documents from 6 templates, 14 update templates");
